@@ -4,6 +4,7 @@ from __future__ import annotations
 from collections import Counter
 import hashlib
 import json
+import os
 import random
 import sys
 import time
@@ -130,8 +131,12 @@ class Ctx:
         if sample is not None and len(self.samples) < 4 and (nontrivial or not self.samples):
             self.samples.append(jsonable(sample))
 
-    def case_guard(self, workload: str):
-        """Context manager: an exception escaping one workload case is recorded (case_exceptions) and the workload goes on."""
+    def case_guard(self, workload: str, library_must_not_raise: Optional[str] = None):
+        """Context manager: an exception escaping one workload case is recorded (case_exceptions) and the workload goes on.
+
+        ``library_must_not_raise``: mechanism to report when the exception was raised while library code was running
+        (some traceback frame inside the perception_eval package). Only for workloads whose every input is valid by
+        construction and whose property promises a value ("returns ..."), so that raising is itself the refutation."""
         ctx = self
 
         class _G:
@@ -141,6 +146,14 @@ class Ctx:
             def __exit__(self_g, et, ev, tb):
                 if et is None or not issubclass(et, Exception):
                     return False
+                if library_must_not_raise is not None:
+                    import traceback as _tb
+
+                    files = [f.filename for f in _tb.extract_tb(tb)]
+                    if any("/perception_eval/" in f and "/verif/" not in f for f in files):
+                        where = [f"{os.path.basename(f.filename)}:{f.name}" for f in _tb.extract_tb(tb) if "/perception_eval/" in f.filename][-1]
+                        ctx.violation(f"{library_must_not_raise}:{et.__name__}", dict(error=str(ev)[:200], raised_in=where), tap=workload)
+                        return True
                 ctx.counters[f"{workload}.case_exceptions"] += 1
                 lst = ctx.notes.setdefault("case_exception_samples", [])
                 if len(lst) < 3:
